@@ -16,8 +16,11 @@ import (
 	"golang.zx2c4.com/wireguard/device"
 	"golang.zx2c4.com/wireguard/replay"
 
+	"encoding/binary"
+
 	"wgv/cosim"
 	"wgv/ref"
+	"wgv/sim"
 )
 
 type Op struct {
@@ -49,11 +52,16 @@ func runImpl(ops []Op) []bool {
 }
 
 // runDevice replays a history against a real device: every Validate op is an
-// authenticated transport message with that counter sent by the ref peer, the
-// verdict is whether the inner packet reaches the TUN; Reset is a new
-// handshake (a fresh session key has a fresh filter).  Only histories whose
-// limit is the device's RejectAfterMessages make sense here.
-func runDevice(ops []Op) ([]bool, error) {
+// authenticated transport message with that counter sent by the ref peer under
+// one of the peer's LIVE session keys; the verdict is whether its inner packet
+// (tagged with the op number) reaches the TUN.  Reset is a new handshake: the
+// device then holds two live keys (the old current one and the new one), and
+// later ops are spread over both, delivered in receive batches of 1..4 that
+// mix the two keys.  Forged datagrams (right receiver index, chosen counter,
+// corrupted tag) are interleaved: they must write nothing and must not change
+// any later verdict.  The result is one history per session key (a fresh key
+// has a fresh filter), in arrival order.
+func runDevice(r *rand.Rand, ops []Op) ([]Case, error) {
 	a := cosim.NewPeer("A", "192.0.2.7:5555", "10.0.0.2/32")
 	w, err := cosim.NewWorld(cosim.Config{Up: true, BindBatch: 8, TunBatch: 8}, true, a)
 	if err != nil {
@@ -65,31 +73,117 @@ func runDevice(ops []Op) ([]bool, error) {
 		_, _, sess, err := w.RefInitiates(a, a.Addr, ref.Tai64n(time.Now()))
 		return sess, err
 	}
-	sess, err := hs()
+	type sessHist struct {
+		sess *ref.Session
+		c    Case
+	}
+	var all []*sessHist
+	first, err := hs()
 	if err != nil {
 		return nil, err
 	}
-	inner := ref.Pad(ref.IPv4([4]byte{10, 0, 0, 2}, [4]byte{10, 9, 9, 9}, 37, 3))
-	obs := make([]bool, len(ops))
-	for i, o := range ops {
-		if o.Reset {
-			time.Sleep(time.Millisecond) // distinct whitened-or-not timestamps are ref's: nanosecond resolution
-			if sess, err = hs(); err != nil {
+	// The device (responder) holds a new key in "next" until a message under it is accepted; then
+	// next -> current -> previous.  A further handshake empties previous and replaces an
+	// unconfirmed next.  So at any time exactly these are live: {prev, cur} or {cur, nxt}.
+	var prev, cur *sessHist
+	nxt := &sessHist{sess: first, c: Case{Gen: "device"}}
+	all = append(all, nxt)
+	pick := func() *sessHist {
+		var cands []*sessHist
+		for _, h := range []*sessHist{prev, cur, nxt} {
+			if h != nil {
+				cands = append(cands, h)
+			}
+		}
+		h := cands[len(cands)-1]
+		if len(cands) == 2 && r.Intn(3) == 0 {
+			h = cands[0]
+		}
+		return h
+	}
+	mkInner := func(tag uint32) []byte {
+		p := ref.IPv4([4]byte{10, 0, 0, 2}, [4]byte{10, 9, 9, 9}, 37, 3)
+		binary.BigEndian.PutUint32(p[20:], tag)
+		return ref.Pad(p)
+	}
+	type pending struct {
+		h   *sessHist
+		pos int
+		tag uint32
+	}
+	i := 0
+	tag := uint32(0)
+	for i < len(ops) {
+		if ops[i].Reset {
+			time.Sleep(time.Millisecond)
+			ns, err := hs()
+			if err != nil {
 				return nil, err
 			}
-			obs[i] = true
+			nh := &sessHist{sess: ns, c: Case{Gen: "device"}}
+			all = append(all, nh)
+			prev, nxt = nil, nh
+			i++
 			continue
 		}
-		out := w.Inject(a.Addr, sess.Transport(o.C, inner))
-		if !out.Settled {
-			return nil, fmt.Errorf("step %d did not settle", i)
+		n := 1 + r.Intn(4)
+		var batch []sim.Dgram
+		var pend []pending
+		forged := map[uint32]bool{}
+		for k := 0; k < n && i < len(ops) && !ops[i].Reset; k++ {
+			h := pick()
+			o := ops[i]
+			if r.Intn(7) == 0 { // forged: same key index, adversarial counter, bad tag
+				fc := o.C
+				if r.Intn(2) == 0 {
+					fc = limitDev - 2
+				}
+				tag++
+				m := h.sess.Transport(fc, mkInner(tag))
+				m[len(m)-1] ^= 0x40
+				forged[tag] = true
+				batch = append(batch, sim.Dgram{From: a.Addr, Data: m})
+			}
+			tag++
+			batch = append(batch, sim.Dgram{From: a.Addr, Data: h.sess.Transport(o.C, mkInner(tag))})
+			h.c.Ops = append(h.c.Ops, Op{C: o.C, L: limitDev})
+			h.c.Obs = append(h.c.Obs, false)
+			pend = append(pend, pending{h, len(h.c.Ops) - 1, tag})
+			i++
 		}
-		obs[i] = len(out.Written) == 1
-		if len(out.Written) > 1 {
-			return nil, fmt.Errorf("step %d: %d TUN writes for one datagram", i, len(out.Written))
+		out := w.InjectBatch(batch...)
+		if !out.Settled {
+			return nil, fmt.Errorf("batch before op %d did not settle", i)
+		}
+		seen := map[uint32]int{}
+		for _, wr := range out.Written {
+			if len(wr.Data) < 24 {
+				return nil, fmt.Errorf("short TUN write")
+			}
+			seen[binary.BigEndian.Uint32(wr.Data[20:])]++
+		}
+		for t, cnt := range seen {
+			if forged[t] {
+				return nil, fmt.Errorf("forged datagram (tag %d) reached the TUN", t)
+			}
+			if cnt > 1 {
+				return nil, fmt.Errorf("datagram tag %d written %d times", t, cnt)
+			}
+		}
+		for _, p := range pend {
+			p.h.c.Obs[p.pos] = seen[p.tag] == 1
+			if p.h == nxt && p.h.c.Obs[p.pos] { // confirmed
+				prev, cur, nxt = cur, nxt, nil
+			}
 		}
 	}
-	return obs, nil
+	var res []Case
+	for _, h := range all {
+		if len(h.c.Ops) > 0 {
+			res = append(res, h.c)
+		}
+	}
+	return res, nil
 }
 
 var jumps = []uint64{1, 1, 1, 2, 3, 62, 63, 64, 65, 66, 127, 128, 129, 8063, 8064, 8065, 8127, 8128, 8129, 8130, 8191, 8192, 8193, 8255, 8256, 8257, 16383, 16384, 16385, 1 << 20, 1 << 32, 1<<32 + 1}
@@ -256,11 +350,15 @@ func main() {
 		}
 		for i := range cases {
 			if cases[i].Gen == "device" {
-				obs, err := runDevice(cases[i].Ops)
+				// a per-key device history replayed alone (one key, batches and forgeries re-drawn)
+				cs, err := runDevice(rand.New(rand.NewSource(*seed+int64(i))), cases[i].Ops)
 				if err != nil {
-					panic(err)
+					fmt.Fprintln(os.Stderr, "device replay:", err)
+					cases[i].Obs = make([]bool, len(cases[i].Ops))
+					cases[i].Gen = "device-error: " + err.Error()
+				} else if len(cs) > 0 {
+					cases[i].Obs = cs[0].Obs
 				}
-				cases[i].Obs = obs
 			} else {
 				cases[i].Obs = runImpl(cases[i].Ops)
 			}
@@ -297,7 +395,7 @@ func main() {
 		}
 		// the same generator through the receive path of a real device
 		type res struct {
-			c   Case
+			c   []Case
 			err error
 		}
 		ch := make(chan res, *ndev)
@@ -311,20 +409,24 @@ func main() {
 					break
 				}
 			}
+			sub := rand.New(rand.NewSource(r.Int63()))
 			go func(ops []Op) {
 				sem <- struct{}{}
 				defer func() { <-sem }()
-				obs, err := runDevice(ops)
-				ch <- res{Case{Ops: ops, Obs: obs, Gen: "device"}, err}
+				cs, err := runDevice(sub, ops)
+				ch <- res{cs, err}
 			}(ops)
 		}
 		for i := 0; i < *ndev; i++ {
 			x := <-ch
 			if x.err != nil {
-				fmt.Fprintln(os.Stderr, "device history discarded:", x.err)
+				// a forged datagram reaching the TUN, a double write or a hang is itself a failure:
+				// keep it as a case whose verdicts cannot match the specification
+				fmt.Fprintln(os.Stderr, "device history failed:", x.err)
+				cases = append(cases, Case{Ops: []Op{{C: 0, L: limitDev}}, Obs: []bool{false}, Gen: "device-error: " + x.err.Error()})
 				continue
 			}
-			cases = append(cases, x.c)
+			cases = append(cases, x.c...)
 		}
 	}
 	if *shards > len(cases) {
